@@ -6,21 +6,21 @@ namespace SonicSpec.Ir
 open SonicSpec SonicSpec.Go SonicSpec.Enc SonicSpec.Json
 variable {o : EncOpts} {co : COpts}
 
-theorem codeFields_none (sp : Nat) (pv : Bool) (n : String) (tg : Option Bytes) (t : GoType) (fs : List (String × Option Bytes × GoType))
+theorem codeFields_none (lv : Nat) (tab : List GoType) (sp : Nat) (pv : Bool) (n : String) (tg : Option Bytes) (t : GoType) (fs : List (String × Option Bytes × GoType))
     (ks : List (Option Field)) (off : Nat) (offs : List Nat) (i pc : Nat) :
-    codeFields co sp pv ((n, tg, t) :: fs) (none :: ks) (off :: offs) i pc = codeFields co sp pv fs ks offs (i + 1) pc := by
+    codeFields co (libK co lv) tab sp pv ((n, tg, t) :: fs) (none :: ks) (off :: offs) i pc = codeFields co (libK co lv) tab sp pv fs ks offs (i + 1) pc := by
   rw [codeFields.eq_1]; rfl
 
-theorem codeFields_some (sp : Nat) (pv : Bool) (n : String) (tg : Option Bytes) (t : GoType) (fs : List (String × Option Bytes × GoType))
+theorem codeFields_some (lv : Nat) (tab : List GoType) (sp : Nat) (pv : Bool) (n : String) (tg : Option Bytes) (t : GoType) (fs : List (String × Option Bytes × GoType))
     (f : Field) (ks : List (Option Field)) (off : Nat) (offs : List Nat) (i pc : Nat) :
-    codeFields co sp pv ((n, tg, t) :: fs) (some f :: ks) (off :: offs) i pc =
-      fieldCode co f t (fun pc' => code co pc' (sp + 1) pv t) (elemCode co t (sp + 1) pv) i off pc ++
-      codeFields co sp pv fs ks offs (i + 1)
-        (pc + (fieldCode co f t (fun pc' => code co pc' (sp + 1) pv t) (elemCode co t (sp + 1) pv) i off pc).length) := by
+    codeFields co (libK co lv) tab sp pv ((n, tg, t) :: fs) (some f :: ks) (off :: offs) i pc =
+      fieldCode co f t (fun pc' => code co (libK co lv) tab pc' (sp + 1) pv t) (elemCode co (libK co lv) tab t (sp + 1) pv) i off pc ++
+      codeFields co (libK co lv) tab sp pv fs ks offs (i + 1)
+        (pc + (fieldCode co f t (fun pc' => code co (libK co lv) tab pc' (sp + 1) pv t) (elemCode co (libK co lv) tab t (sp + 1) pv) i off pc).length) := by
   rw [codeFields.eq_2]; rfl
 
-theorem need_le_needF_head (t : GoType) (n : String) (tg : Option Bytes) (fs : List (String × Option Bytes × GoType)) :
-    need t ≤ needF ((n, tg, t) :: fs) ∧ needF fs ≤ needF ((n, tg, t) :: fs) := by
+theorem need_le_needF_head (t : GoType) (n : String) (tg : Option Bytes) (fs : List (String × Option Bytes × GoType)) (v : GoVal) (vs : List GoVal) :
+    needV t v ≤ needF ((n, tg, t) :: fs) (v :: vs) ∧ needF fs vs ≤ needF ((n, tg, t) :: fs) (v :: vs) := by
   simp only [needF]; omega
 
 theorem regs_cond_and (fr : Regs) (c : Bool) : ({ fr with cond := c && true } : Regs) = { fr with cond := c } := by simp
@@ -36,16 +36,16 @@ theorem encF_some_eq (addr : Bool) (f : Field) (ks : List (Option Field)) (v : G
   · cases f.quoted <;> rfl
 
 /-- the loop of compileStructBody over the declared fields from selector `i` on -/
-theorem fields_ok (hnull : co.encOnlyOmitNull = false) {addr fpv : Bool} {P : Program} {sp : Nat} {pv : Bool}
+theorem fields_ok {addr fpv : Bool} {P : Program} {sp : Nat} {pv : Bool} {lv : Nat} {tab : List GoType} (hlv : libLeft tab ≤ lv)
     (fr : Regs) (vs : List GoVal) (hfr : fr.p.get = some (.st vs)) (s : Stack)
-    (hIH : ∀ v ∈ vs, ∀ t, Sub t = true → Conf t v = true → CodeOK o co t v)
-    (hIH2 : ∀ w, GoVal.ptr w ∈ vs → ∀ e, Sub e = true → Conf e w = true → CodeOK o co e w) :
+    (hIH : ∀ v ∈ vs, ∀ t, Sub t = true → Conf co t v = true → CodeOK o co t v)
+    (hIH2 : ∀ w, GoVal.ptr w ∈ vs → ∀ e, Sub e = true → Conf co e w = true → CodeOK o co e w) :
     ∀ (fs : List (String × Option Bytes × GoType)) (ks : List (Option Field)) (offs : List Nat) (vsR : List GoVal) (i pc : Nat) (c : Bool) (b : Bytes),
-      Aligned fs ks → SubF fs = true → subK ks = true → ConfF fs ks vsR = true → offs.length = fs.length → vs.drop i = vsR →
-      (fr :: s).length + needF fs ≤ maxStack →
-      At P pc (codeFields co sp pv fs ks offs i pc) →
+      Aligned fs ks → SubF fs = true → subK ks = true → ConfF co fs ks vsR = true → offs.length = fs.length → vs.drop i = vsR →
+      (fr :: s).length + needF fs vsR ≤ maxStack →
+      At P pc (codeFields co (libK co lv) tab sp pv fs ks offs i pc) →
       (∀ ms, encF o addr ks vsR = .ok ms → ∀ res,
-          Halts o co fpv P (pc + (codeFields co sp pv fs ks offs i pc).length) { fr with cond := c && ms.isEmpty } (fr :: s) (b ++ emitM c ms) res →
+          Halts o co fpv P (pc + (codeFields co (libK co lv) tab sp pv fs ks offs i pc).length) { fr with cond := c && ms.isEmpty } (fr :: s) (b ++ emitM c ms) res →
           Halts o co fpv P pc { fr with cond := c } (fr :: s) b res) ∧
       (∀ e, encF o addr ks vsR = .error e → e = .unsupportedValue ∧ Halts o co fpv P pc { fr with cond := c } (fr :: s) b (.error (.enc e))) := by
   intro fs
@@ -82,7 +82,7 @@ theorem fields_ok (hnull : co.encOnlyOmitNull = false) {addr fpv : Bool} {P : Pr
     obtain ⟨hget, hdrop'⟩ := drop_getElem? hdrop
     have hmem : v ∈ vs := List.mem_of_getElem? hget
     have hoff' : offs.length = fs.length := by simpa using hoff
-    obtain ⟨hn1, hn2⟩ := need_le_needF_head t n tg fs
+    obtain ⟨hn1, hn2⟩ := need_le_needF_head t n tg fs v vsR
     cases k with
     | none =>
       rw [codeFields_none] at hat ⊢
@@ -93,12 +93,15 @@ theorem fields_ok (hnull : co.encOnlyOmitNull = false) {addr fpv : Bool} {P : Pr
       rw [codeFields_some] at hat ⊢
       simp only [subK, Bool.and_eq_true, Bool.not_eq_true'] at hK
       obtain ⟨htyp, hq⟩ := hal.1 f rfl
-      have hnz : (f.omitEmpty && negZero v) = false := by
+      have hfld : (!(f.omitEmpty && negZero v)) = true ∧ omitNullOK co f t v = true := by
         have := hC.1.2
+        simpa only [Bool.and_eq_true] using this
+      have hnz : (f.omitEmpty && negZero v) = false := by
+        have := hfld.1
         cases h1 : f.omitEmpty <;> cases h2 : negZero v <;> simp_all
-      generalize hfc : fieldCode co f t (fun pc' => code co pc' (sp + 1) pv t) (elemCode co t (sp + 1) pv) i off pc = fc at hat ⊢
+      generalize hfc : fieldCode co f t (fun pc' => code co (libK co lv) tab pc' (sp + 1) pv t) (elemCode co (libK co lv) tab t (sp + 1) pv) i off pc = fc at hat ⊢
       obtain ⟨fskip, fkeep⟩ := field_ok (o := o) (co := co) (addr := addr) (fpv := fpv) (P := P) (sp := sp + 1) (pv := pv) (i := i) (off := off)
-        hnull hC.1.1 hnz hq (by rw [← htyp]; exact hK.1)
+        hlv hfld.2 hC.1.1 hnz hq (by rw [← htyp]; exact hK.1)
         (hIH v hmem t hS.1 hC.1.1)
         (fun e w ht hv => by
           subst ht hv
